@@ -71,6 +71,17 @@ theorem verylow_WF (t : Tree) (h : WF t = true) : WF (punctuationVerylow t) = tr
 -- the final `.` joins the constituent of token 5
 #guard (punctuationVerylow exT).kids.map leafNums = [[1, 2], [3, 4, 5, 6]]
 
+theorem verylow_post (t : Tree) (h : WF t = true) : verylowPost (punctuationVerylow t) = true := by
+  unfold verylowPost
+  rw [terminals_of_leaves_perm t _ (verylow_leaves t h) (WF_nodup t h), List.all_eq_true]
+  intro l hl
+  split
+  · rename_i hp
+    have : l.num ∈ verylowCands t := List.mem_map.2 ⟨l, List.mem_filter.2 ⟨hl, hp⟩, rfl⟩
+    exact verylow_post_all t h _ this
+  · rfl
+
+
 /-! ## root -/
 
 theorem root_leaves (t : Tree) (h : WF t = true) : (punctuationRoot t).leaves.Perm t.leaves :=
@@ -89,6 +100,17 @@ theorem root_WF (t : Tree) (h : WF t = true) : WF (punctuationRoot t) = true :=
 
 -- all punctuation tokens end up below the root
 #guard (punctuationRoot exT).kids.map leafNums = [[1], [3, 5], [2], [4], [6]]
+
+theorem root_post (t : Tree) (h : WF t = true) : rootPost (punctuationRoot t) = true := by
+  unfold rootPost
+  rw [terminals_of_leaves_perm t _ (root_leaves t h) (WF_nodup t h), List.all_eq_true]
+  intro l hl
+  split
+  · rename_i hp
+    have : l.num ∈ rootCands t := List.mem_map.2 ⟨l, List.mem_filter.2 ⟨hl, hp⟩, rfl⟩
+    exact root_post_all t h _ this
+  · rfl
+
 
 /-! ## symetrify -/
 
